@@ -84,6 +84,21 @@ def geometries(rng, polys, n):
     out.append(('hole_around_one_cell', [('holed', (cover, box(hx0, hy0, hx1, hy1)))]))
     out.append(('around_one_cell', [('ring', box(x0_ - 1, y0_ - 1, hx0, y1_ + 1)), ('ring', box(hx1, y0_ - 1, x1_ + 1, y1_ + 1)),
                                     ('ring', box(hx0, y0_ - 1, hx1, hy0)), ('ring', box(hx0, hy1, hx1, y1_ + 1))]))
+    # two cells that share no corner, each next to a third cell that lies between them: small boxes inside the two. On a mesh
+    # both ends of some edges of the cell in between are kept although that cell is not
+    vsets = [set(r) for r in rings]
+    triple = None
+    for b_, vb in enumerate(vsets):
+        nb = [a_ for a_, va in enumerate(vsets) if a_ != b_ and len(va & vb) >= 2]
+        for a_ in nb:
+            for c_ in nb:
+                if a_ < c_ and not (vsets[a_] & vsets[c_]):
+                    triple = triple or (a_, c_)
+    if triple:
+        pa, pc = (_sh.Polygon(rings[k]).representative_point() for k in triple)
+        h_ = 0.015625
+        out.append(('two_cells_apart', [('ring', box(pa.x - h_, pa.y - h_, pa.x + h_, pa.y + h_)),
+                                        ('ring', box(pc.x - h_, pc.y - h_, pc.x + h_, pc.y + h_))]))
     for _ in range(n):
         c = rng.choice(['box', 'box', 'cover', 'touch', 'triangle', 'line', 'point', 'multi', 'border', 'miss'])
         if c == 'box' and len(xs) > 1 and len(ys) > 1:
